@@ -432,15 +432,15 @@ def model_consts(ck):
 
 def req_eag(consts, blks, key, ent, pt, kid, halg, kw="direct"):
     from cryptography.hazmat.primitives.ciphers.aead import AESGCM
-    nonce = blks[ent][:12] if ent < len(blks) else b""
+    big = len(pt) > 4096
     at = []
-    for k in (12, 16, 8):  # whatever width the model draws, the oracle answers for the recorded block
+    for k in ((12,) if big else (12, 16, 8)):  # whatever width the model draws, the oracle answers for the recorded block
         n = blks[ent][:k] if ent < len(blks) else b""
         try:
             at.append([key, n, pt, consts["aad"], AESGCM(key).encrypt(n, pt, consts["aad"])])
         except Exception:  # noqa: BLE001
             pass
-    ht = [[f, n, pt, class_digest(f, n, pt)] for _, f, n in consts["hash"]]
+    ht = [[f, n, None if big else pt, class_digest(f, n, pt)] for _, f, n in consts["hash"]]
     return ["enc_eag", blks, at, ht, key, ent, pt, KEY_NAME.encode(), kid, halg.encode(), kw.encode()]
 
 
@@ -527,7 +527,7 @@ def eag_cases(ck):
             for kid in KIDS:
                 for a in ALGS:
                     cases.append((n, kid, a))
-        for _ in range(400):
+        for _ in range(1500):
             cases.append((rng.choice([rng.randrange(0, 70), rng.randrange(0, 5000), 4095, 4097, 65535, 65536]), rng.choice(KIDS + [rng.randrange(2 ** 32)]), rng.choice(ALGS)))
     else:
         for _ in range(25):
@@ -577,7 +577,7 @@ def eag_cli_stream(ck, tmp, consts):
     key = bytes(rng.randrange(256) for _ in range(32))
     cases = [(0, 0, "sha-256"), (17, 24, "shake128"), (4096, 2 ** 32 - 1, "sha-512"), (65537, 65536, "shake256"), (1, 255, "sha-384"), (16, 256, "sha-256")]
     if ck.deep:
-        cases += [(rng.choice(SIZES), rng.choice(KIDS), rng.choice(ALGS)) for _ in range(24)]
+        cases += [(rng.choice(SIZES), rng.choice(KIDS), rng.choice(ALGS)) for _ in range(54)]
     for idx, (n, kid, halg) in enumerate(cases):
         s = 1000 + idx
         pt = mkpt(n, s)
@@ -613,7 +613,7 @@ def geninfo_cases(ck):
             cases.append((ln, ceks[(i + j) % 3], kid, ["direct", "aes-kw-256"][(i + j) % 2]))
     for ln in [0, 5, 11, 12, 13, 27]:       # outside the statement: compared with the model only
         cases.append((ln, b"\x01\x02", rng.choice(KIDS), "direct"))
-    n = 300 if ck.deep else 20
+    n = 1000 if ck.deep else 20
     for _ in range(n):
         cases.append((28 + rng.randrange(0, 3000), bytes(rng.randrange(256) for _ in range(rng.choice([0, 1, 23, 24, 40, 255, 256]))), rng.choice(KIDS + [rng.randrange(2 ** 32)]), rng.choice(["direct", "aes-kw-256"])))
     return cases
@@ -651,7 +651,7 @@ def methods_stream(ck):
     """Translator validation: the Encryptor methods called directly, model vs implementation."""
     rng = ck.rng
     reqs, ires = [], []
-    n = 400 if ck.deep else 60
+    n = 1500 if ck.deep else 60
     for i in range(n):
         e = encryptor()
         blob = bytes(rng.randrange(256) for _ in range(rng.choice([0, 1, 11, 12, 13, 27, 28, 29, 60, 300])))
